@@ -229,7 +229,7 @@ fn single_valued(spec: &Spec, k: usize, alpha: &[f64], cap: usize, st: &mut Stat
 
 pub fn run(ctx: &Ctx) -> CheckOutput {
     let quick = ctx.tier == Tier::Quick;
-    let n_max = if quick { 4 } else { 6 };
+    let n_max = if quick { 4 } else { 7 };
     let cap = if quick { 100_000 } else { 1_500_000 };
     let mut jobs: Vec<Job> = vec![];
     for (spec, k) in configs(n_max) {
